@@ -1,4 +1,6 @@
 import OrbitModel.Proofs.Address
+import OrbitModel.Proofs.OpenCreate
+import OrbitModel.Proofs.OpenCreateOpen
 /-!
 # C14 — the address of a database is a function of (name, type, access controller) and round-trips
 
@@ -34,6 +36,57 @@ theorem accepted_names {isCid : String → Bool} {h : String} (hc : isCid h = tr
     determine isCid h name = some a ↔ isAddress isCid name = false ∧
       ∃ rest, cleanAbs (["orbitdb", h] ++ segments name) = "orbitdb" :: h :: rest ∧
         a = ⟨h, "/".intercalate rest⟩ := determine_some_iff hc hh name a
+
+/-! ### Create / Open (`Model/OpenCreate.lean`: the decision logic of one instance, in the order of
+the Go code; `H` = manifest hash, `net` = manifests retrievable from IPFS, `local` = databases with
+local data). The driver runs this model on every `createdb` / `openaddr` line of the address family
+and compares outcome, address, type and write list with the real instance. -/
+
+/-- **creating over an existing local database is refused unless overwrite is requested**, and
+the refusal leaves the local data as it was -/
+theorem create_over_existing_is_refused {isCid : String → Bool} {H : String → String → List String → String}
+    (s : OC.St) (name ty : String) (o : OC.Opts) (a : Addr)
+    (hd : (OC.determineAddr isCid H s name ty o.acl).1 = .ok a) (hl : a ∈ s.local) (ho : o.overwrite = false) :
+    (OC.create isCid H s name ty o).1 = .error .exists ∧ (OC.create isCid H s name ty o).2.local = s.local := by
+  obtain ⟨h1, h2, _, _⟩ := OC.create_refused_when_exists s name ty o a hd hl ho
+  exact ⟨by rw [h1], h2⟩
+
+/-- **a local-only open of an unknown database is refused** and changes nothing -/
+theorem local_only_open_of_unknown_is_refused {isCid : String → Bool} {H : String → String → List String → String}
+    (s : OC.St) (addr : String) (o : OC.Opts) (a : Addr)
+    (hp : parse isCid addr = some a) (hl : a ∉ s.local) (hlo : o.localOnly = true) :
+    OC.open isCid H s addr o = (.error .notLocal, s) := OC.open_unknown_localonly_refused s addr o a hp hl hlo
+
+/-- **opening an address yields a store of the recorded type whose write list is the recorded one**,
+whatever options the opener passes -/
+theorem open_yields_recorded_type_and_write_list {isCid : String → Bool} {H : String → String → List String → String}
+    (s : OC.St) (addr : String) (o : OC.Opts) (a : Addr) (out : OC.Out)
+    (hp : parse isCid addr = some a) (h : (OC.open isCid H s addr o).1 = .ok out) :
+    ∃ m, OC.fetch s.net a.root = some m ∧ out = (a, m.type, m.acl) :=
+  OC.open_type_and_acl_are_the_recorded_ones s addr o a out hp h
+
+/-- **what Create returned is what every later Open returns**: on the same instance with any
+options; on any other instance that can fetch the manifest (not local-only); and a local-only open
+on an instance without local data is refused -/
+theorem create_then_open_anywhere {isCid : String → Bool} {H : String → String → List String → String}
+    (s s' : OC.St) (name ty : String) (o : OC.Opts) (a : Addr) (ty' : String) (wl : List String)
+    (hc : isCid (OC.recHash H s name ty o) = true) (hs : Seg (OC.recHash H s name ty o))
+    (h : OC.create isCid H s name ty o = (.ok (a, ty', wl), s')) :
+    (∀ o', OC.open isCid H s' (print a) o' = (.ok (a, ty', wl), s')) ∧
+    (∀ s2 o', OC.fetch s2.net a.root = OC.fetch s'.net a.root → ty' ∈ s2.types → o'.localOnly = false →
+      OC.open isCid H s2 (print a) o' = (.ok (a, ty', wl), s2)) ∧
+    (∀ s2 o', a ∉ s2.local → o'.localOnly = true →
+      OC.open isCid H s2 (print a) o' = (.error .notLocal, s2)) :=
+  OC.create_then_open_same s s' name ty o a ty' wl hc hs h
+
+/-- the address Create returns is `determine` of the manifest hash of (name, type, write list) -/
+theorem create_address_is_determined_by_inputs {isCid : String → Bool} {H : String → String → List String → String}
+    (s : OC.St) (name ty : String) (o : OC.Opts) (out : OC.Out)
+    (hc : isCid (OC.recHash H s name ty o) = true) (hs : Seg (OC.recHash H s name ty o))
+    (h : (OC.create isCid H s name ty o).1 = .ok out) :
+    determine isCid (H name ty (OC.effAcl s.self o.acl)) name = some out.1 ∧ out.2.1 = ty ∧
+      out.2.2 = OC.effAcl s.self o.acl :=
+  OC.create_address_deterministic s name ty o out hc hs h
 
 /-- Refutation witness for the pinned tree (finding F10, repaired): a name that climbs above its
 root got the address of *another* database; the repaired code refuses it. (corpus/C14) -/
